@@ -20,6 +20,10 @@ pub struct FrameSpec {
     pub checksum: bool,
     /// requested dictionary-id width 0/1/2/4 (only used when a dictionary is supplied)
     pub dict_id_bytes: u8,
+    /// without a dictionary: write a Dictionary_ID field of `dict_id_bytes` (1/2/4) bytes holding 0
+    /// ("no dictionary" spelled out - legal, accepted by libzstd, emitted by no compressor)
+    #[serde(default)]
+    pub zero_dict_id: bool,
     pub blocks: Vec<BlockSpec>,
 }
 
@@ -306,6 +310,7 @@ pub fn synth(spec: &FrameSpec, dict: Option<&Dict>, over_long: bool) -> SynthOut
             };
             (spec.dict_id_bytes.max(need).min(4).next_power_of_two(), d.id)
         }
+        None if spec.zero_dict_id && spec.dict_id_bytes > 0 => (spec.dict_id_bytes.min(4).next_power_of_two(), 0),
         _ => (0, 0),
     };
     let did_bytes = if did_bytes == 3 { 4 } else { did_bytes };
